@@ -978,6 +978,24 @@ def uniform_closed_edge_witness(a, b):
     return None
 
 
+def mixture_after_update_witness(seed):
+    """two steps: build a mixture, then MOVE every inexact leaf (what an optimiser step does); the density must still be the
+    weight-normalised sum of the component densities — in particular integrate to one"""
+    import equinox as eqx, jax
+    r = np.random.RandomState(seed)
+    k = 3
+    m = D.VmapMixture(eqx.filter_vmap(D.Normal)(jnp.asarray(r.uniform(-2, 2, k)), jnp.asarray(r.uniform(0.5, 1.5, k))), jnp.asarray(r.uniform(0.5, 3.0, k)))
+    leaves, td = jax.tree_util.tree_flatten(m)
+    moved = jax.tree_util.tree_unflatten(td, [l + jnp.asarray(r.uniform(-0.7, 0.7, np.shape(l))) if eqx.is_inexact_array(l) else l for l in leaves])
+    xs = jnp.linspace(-40.0, 40.0, 40001)
+    lp = np.asarray(moved.log_prob(xs))
+    mass = float(np.sum(np.exp(lp)) * (xs[1] - xs[0]))
+    if not abs(mass - 1.0) <= 1e-6:
+        return dict(key=f"mixture-after-update|seed={seed}", check="mixture_after_update", seed=seed, mass=mass,
+                    law="after its leaves have been updated the mixture density is still weight-normalised (integrates to one)")
+    return None
+
+
 def search(hints, tier, rng):
     quick = tier == "quick"
     wit = []
@@ -989,6 +1007,9 @@ def search(hints, tier, rng):
 
     for a, b in UNIFORM_EDGE_PAIRS:
         if push(uniform_closed_edge_witness(a, b)):
+            return wit
+    for sd in (1, 2, 3):
+        if push(mixture_after_update_witness(sd)):
             return wit
     reps = 1 if quick else 8
     for name, (ctor, kinds) in FAMS.items():
@@ -1057,6 +1078,8 @@ def replay(w):
         return float(D.Uniform(w["minval"], w["maxval"]).log_prob(w["maxval"])) == -math.inf
     if ch == "uniform_closed_edge":
         return uniform_closed_edge_witness(w["minval"], w["maxval"]) is not None
+    if ch == "mixture_after_update":
+        return mixture_after_update_witness(w["seed"]) is not None
     if ch == "logpdf":
         shapes = [tuple(s) for s in w["shapes"]]
         params = [np.asarray(p, float).reshape(s) for p, s in zip(w["params"], shapes)]
